@@ -338,6 +338,7 @@ inductive Outcome where
   `syn::parse_str(&item.to_string()).expect("not valid Rust")`, or `prettyplease::unparse` on what `syn`
   could only parse as verbatim tokens (a module called `become`) -/
   | panicPrettyPrint
+  deriving DecidableEq, Repr
 
 /-- `generate_rust_stub` on a valid schema. -/
 def stubCheck (S : Schema) : Outcome :=
